@@ -12,7 +12,7 @@ import cxx2c, spec as specmod
 
 DEFAULT_FLAGS = ['bounds-check', 'pointer-check', 'pointer-overflow-check', 'signed-overflow-check',
                  'undefined-shift-check', 'div-by-zero-check', 'conversion-check-off']
-MEM_LIMIT = 20 * 1024 ** 3
+MEM_LIMIT = int(os.environ.get('VERIF_MEM_GB', '16')) * 1024 ** 3
 
 PROPERTY_CLASSES = ('postcondition', 'assertion', 'precondition', 'pointer_dereference', 'array_bounds', 'bounds',
                     'pointer_arithmetic', 'pointer', 'overflow', 'undefined-shift', 'division-by-zero', 'assigns',
